@@ -25,7 +25,22 @@ func c19(r *core.Run) {
 	r.Rule("C19/R7", "InitGenesis writes every element of every imported list: import loops are left only when the list is exhausted and no path through a loop body skips the write")
 	r.Rule("C19/R8", "InitGenesis hands the genesis file's parameter set to SetParams as it is (no completion with defaults: proto3 cannot tell an absent field from an explicit zero)")
 	r.Rule("C19/R9", "the record setters that InitGenesis (and every handler) writes through store exactly what they are handed, always: the parameter is marshalled unmodified and every path performs the write — a derived index that is skipped when its slot is occupied keeps a stale copy that a restart from genesis replaces")
+	r.Rule("C19/R10", "the on-disk key layout of every module is the recorded one (canonical terms of the key builders): state written before a change of layout is not read back after it")
+	r.Rule("C19/R11", "genesis validation accepts every parameter set governance can reach: Params.Validate of each module rejects only what one of the validators it calls rejects (the per-key validators of ParamSetPairs) — a cross-field or otherwise computed condition of its own makes an exported state unimportable")
 	r.Rule("C19/R3", "field pairing: every GenesisState field is assigned in ExportGenesis and read in InitGenesis")
+	nPV := 0
+	for _, m := range core.CustomModules {
+		if pv := p.FuncByName("x/"+m+"/types", "Params", "Validate"); pv != nil && pv.Blocks != nil {
+			nPV++
+			failsOnlyOnErrors(r, "C19/R11", []*ssa.Function{pv})
+		}
+	}
+	r.Floor("C19/R11", nPV, 3, "Params.Validate functions")
+	nLayouts := 0
+	for _, m := range core.CustomModules {
+		nLayouts += keyLayoutFrozen(r, "C19/R10", m)
+	}
+	r.Floor("C19/R10", nLayouts, 20, "key builders with a comparable layout")
 	nSetters := 0
 	for _, m := range core.CustomModules {
 		nSetters += settersFaithful(r, "C19/R9", m)
